@@ -733,8 +733,7 @@ def model_quantize(model,
     # Activation converts activation functions.
 
     if layer["class_name"] in [
-      "Dense", "Conv1D", "Conv2D", "Conv2DTranspose",
-      "SeparableConv1D", "SeparableConv2D"
+      "Dense", "Conv1D", "Conv2D", "Conv2DTranspose"
     ]:
       if (layer["class_name"] in ["Dense", "Conv2D"] and enable_bn_folding and
           layer["name"] in layers_to_fold):
@@ -839,6 +838,40 @@ def model_quantize(model,
       # If activation is present, add activation here.
       quantizer = get_config(quantizer_config, layer, q_name,
                              "activation_quantizer",)
+
+      if quantizer:
+        layer_config["activation"] = quantizer
+      else:
+        quantize_activation(layer_config, activation_bits)
+
+    elif layer["class_name"] in ["SeparableConv1D", "SeparableConv2D"]:
+      q_name = "Q" + layer["class_name"]
+
+      # QSeparableConv1D/2D take a depthwise and a pointwise quantizer
+      # instead of a kernel quantizer.
+      depthwise_quantizer = get_config(quantizer_config, layer, q_name,
+                                       "depthwise_quantizer")
+      pointwise_quantizer = get_config(quantizer_config, layer, q_name,
+                                       "pointwise_quantizer")
+
+      if layer_config["use_bias"]:
+        bias_quantizer = get_config(quantizer_config, layer, q_name,
+                                    "bias_quantizer")
+      else:
+        bias_quantizer = None
+
+      # This is to avoid unwanted transformations.
+      if depthwise_quantizer is None:
+        continue
+
+      layer["class_name"] = q_name
+
+      layer_config["depthwise_quantizer"] = depthwise_quantizer
+      layer_config["pointwise_quantizer"] = pointwise_quantizer
+      layer_config["bias_quantizer"] = bias_quantizer
+      # If activation is present, add activation here.
+      quantizer = get_config(quantizer_config, layer, q_name,
+                             "activation_quantizer")
 
       if quantizer:
         layer_config["activation"] = quantizer
